@@ -16,7 +16,7 @@ from .. import env
 env.setup()
 
 from ..cli import run_cli  # noqa: E402
-from ..core import digest, short_exc, floats  # noqa: E402
+from ..core import digest, short_exc, floats, exception_origin_in_repo  # noqa: E402
 from ..screens import make_screen  # noqa: E402
 
 from batchie import sampling  # noqa: E402
@@ -48,9 +48,9 @@ RULE = (
 MENU = [0.0, 1.0, 0.77, float("nan"), -1.0, 1e300]
 PAIR_MENU = [float("nan"), -1.0, 1e300]
 BOUNDS = {
-    "quick": {"screens_per_model": 5, "single_row_values": MENU, "pair_values": PAIR_MENU, "n_chunks": [1, 2, 3], "batch_size": 2,
+    "quick": {"screens_per_model": 6, "single_row_values": MENU, "pair_values": PAIR_MENU, "n_chunks": [1, 2, 3], "batch_size": 2,
               "n_thetas": 4, "burnin": 1, "thin": 1},
-    "thorough": {"screens_per_model": 5, "single_row_values": MENU, "pair_values": MENU, "n_chunks": [1, 2, 3, 7], "batch_size": 2,
+    "thorough": {"screens_per_model": 6, "single_row_values": MENU, "pair_values": MENU, "n_chunks": [1, 2, 3, 7], "batch_size": 2,
                  "n_thetas": 5, "burnin": 2, "thin": 2},
 }
 ASSUMPTIONS = [
@@ -105,6 +105,13 @@ def base_rows(model, idx):
                 ("s0", "u2", (("a", 2.0), ("b", 1.0)), 0.5, False),
                 ("s1", "u3", (("a", 2.0), ("b", 1.0)), 0.5, False),
             ],
+            [   # every recorded value is exactly 0.0 (complete kill): "is there anything observed" must come from the mask, not the values
+                ("s0", "o", (("a", 1.0), ("b", 1.0)), 0.0, True),
+                ("s1", "o", (("a", 1.0), (CTL, 0.0)), 0.0, True),
+                ("s0", "o2", (("b", 1.0), ("c", 1.0)), 0.0, True),
+                ("s0", "u1", (("a", 1.0), ("c", 1.0)), 0.5, False),
+                ("s1", "u2", (("c", 1.0), ("b", 1.0)), 0.5, False),
+            ],
         ]
     else:
         fam = [
@@ -146,7 +153,7 @@ def base_rows(model, idx):
 
 def n_screens(model, tier):
     n = BOUNDS[tier]["screens_per_model"]
-    return min(n, 5 if model == "combo" else 3)
+    return min(n, 6 if model == "combo" else 3)
 
 
 def variants(rows, tier):
@@ -288,6 +295,7 @@ def plan(tier, seed):
             items.append({"kind": "refusal", "model": model, "screen": idx})
             items.append({"kind": "cli", "model": model, "screen": idx})
             items.append({"kind": "cli-chain", "model": model, "screen": idx})
+            items.append({"kind": "late", "model": model, "screen": idx})
     return items
 
 
@@ -488,7 +496,70 @@ def run_cli_item(item, col, tier):
         shutil.rmtree(tmp, ignore_errors=True)
 
 
+def late_views(screen):
+    """plate / subset views obtained WHILE their rows are still unobserved (this is how the next plate is chosen)"""
+    out = []
+    for pid in sorted(int(p.plate_id) for p in screen.plates if not p.is_observed):
+        out.append((f"get_plate({pid})", lambda s, pid=pid: s.get_plate(pid)))
+        out.append((f"plates[{pid}]", lambda s, pid=pid: [p for p in s.plates if int(p.plate_id) == pid][0]))
+    out.append(("subset_unobserved()", lambda s: s.subset_unobserved()))
+    return out
+
+
+def run_late_item(item, col, tier):
+    """The values are recorded AFTER the view was taken: view -> screen.set_observed(view rows, results) -> add_observations(view).
+    The model must see the recorded results, whatever sat behind the mask before."""
+    model, idx = item["model"], item["screen"]
+    rows = base_rows(model, idx)
+    masked = [i for i, r in enumerate(rows) if not r[4]]
+    probe = make_screen(rows, control=CTL)
+    for label, getter in late_views(probe):
+        base_digest = None
+        for v in [0.5] + MENU:
+            var = {i: v for i in masked}
+            case = {"kind": "late", "model": model, "screen": idx, "view": label, "value": v}
+            col.evaluations += 1
+            col.states += 1
+            col.transitions += 1
+            screen = make_screen(apply_variant(rows, var), control=CTL)
+            view = getter(screen)
+            sel = np.asarray(view.selection_vector, dtype=bool).copy()
+            results = np.array([0.2 + 0.07 * k for k in range(int(sel.sum()))], dtype=float)
+            screen.set_observed(sel, results)
+            m = make_model(model, screen)
+            try:
+                m.add_observations(view)
+            except Exception as exc:  # noqa: BLE001
+                if not exception_origin_in_repo(exc):
+                    raise
+                got = ("refused", type(exc).__name__)
+                col.refused += 1
+            else:
+                ta = training_arrays(m)
+                got = tuple(a.tobytes() for a in ta)
+                rows2, k = [], 0
+                for i, r in enumerate(rows):
+                    if sel[i]:
+                        rows2.append((r[0], r[1], r[2], float(results[k]), True))
+                        k += 1
+                    else:
+                        rows2.append((r[0], r[1], r[2], r[3], False))
+                msg = compare_training(reference_training(model, rows2, screen), ta)
+                if msg:
+                    col.violation(f"C04|late-results|training-set|{model}",
+                                  f"{model} model, screen {idx}, view {label} taken before set_observed, masked placeholder {v}: {msg}", case)
+            col.outcome("late", model, idx, label, digest(got))
+            col.nontriv("late", model, idx, label, str(v))
+            if base_digest is None:
+                base_digest = digest(got)
+            elif digest(got) != base_digest:
+                col.violation(f"C04|late-results|influence|{model}",
+                              f"{model} model, screen {idx}: training data handed over through {label} changes with the placeholder {v} that sat behind the mask", case)
+
+
 def run_item(item, col, tier):
+    if item["kind"] == "late":
+        return run_late_item(item, col, tier)
     {"pairs": run_pairs, "refusal": run_refusal, "cli": run_cli_item, "cli-chain": run_cli_chain_item}[item["kind"]](item, col, tier)
 
 
@@ -521,4 +592,6 @@ def replay(case, col):
         run_cli_item({"model": model, "screen": idx}, col, tier)
     elif kind == "cli-chain":
         run_cli_chain_item({"model": model, "screen": idx}, col, tier)
+    elif kind == "late":
+        run_late_item({"model": model, "screen": idx}, col, tier)
     col.evaluations += 1
